@@ -232,8 +232,16 @@ def gen_scenario(rng, size="small", features=None):
     # them (must raise), then ANOTHER OS thread uses the same channels (ev/count, ev/take -> nil): a failed operation must
     # leave the channel usable for every other thread
     late = sorted(set(rng.below(nch) for _ in range(rng.range(1, nch)))) if rng.chance(1, 2) else []
+    # failed select: when everything is delivered (channels empty, consumers parked on them) one more OS thread calls ev/select /
+    # ev/rselect with 1..2 valid READ clauses followed by a malformed clause (must raise); then ANOTHER OS thread uses those
+    # channels (ev/count): an operation that fails must leave no channel locked
+    bad_sel = []
+    if rng.chance(1, 2):
+        for _ in range(rng.range(1, 2)):
+            bad_sel.append({"chans": [rng.below(nch) for _ in range(rng.range(1, 2))], "bad": rng.choice(["keyword", "triple", "badgive", "number"]),
+                            "fn": rng.choice(["select", "select", "rselect"])})
     return {"v": GEN_VERSION, "caps": caps, "cons": cons, "prods": prods,
-            "stale_possible": [stale_possible[ci] for ci in range(nch)], "late_give": late}
+            "stale_possible": [stale_possible[ci] for ci in range(nch)], "late_give": late, "bad_select": bad_sel}
 
 
 PRELUDE = r'''
@@ -396,6 +404,19 @@ def render(scn, stall=8):
     o.append("    :got (++ got)")
     o.append("    :done (do (++ done) (put done-set (m 1) true))")
     o.append('    :returned (do (++ returned) (wr mainlog "order " (m 1) " " (if (done-set (m 1)) "done-before-returned" "RETURNED-BEFORE-DONE")))))')
+    bad_sel = scn.get("bad_select") or []
+    if bad_sel:
+        badx = {"keyword": ":not-a-channel", "triple": "[(chans 0) 1 2]", "badgive": "[:no-chan 1]", "number": "42"}
+        calls = " ".join('(wr f "badselect %d " (try (do (ev/%s %s %s) "returned") ([e] "raised")))'
+                         % (k, b["fn"], " ".join("(chans %d)" % ci for ci in b["chans"]), badx[b["bad"]]) for k, b in enumerate(bad_sel))
+        used = sorted(set(ci for b in bad_sel for ci in b["chans"]))
+        o.append('(set waiting-for "bad-select")')
+        o.append('(ev/thread (fn [&] (def f (logf "bad-select.txt")) %s (file/close f)))' % calls)
+        o.append("(++ progress)")
+        o.append('(set waiting-for "use-after-bad-select")')
+        o.append('(ev/thread (fn [&] (def f (logf "bad-select-use.txt")) (each ci [%s] (wr f "use " ci " " (ev/count (chans ci)))) (file/close f)))'
+                 % " ".join(str(ci) for ci in used))
+        o.append("(++ progress)")
     o.append('(wr mainlog "counts " (string/join (map (fn [c] (string (ev/count c))) chans) " "))')
     o.append("(each c chans (ev/chan-close c))")
     o.append('(repeat %d (def m (ctl-take "cons-end")) (if (= (m 0) :got) (wr mainlog "EXTRA-GOT") (assert (= (m 0) :cons-end))))' % len(scn["cons"]))
@@ -553,6 +574,18 @@ def oracle(scn, res):
             bad.append(("thread-returned-early", "ev/thread resumed its caller before the thread body had finished: " + line))
         if line.startswith("EXTRA-GOT"):
             bad.append(("duplicate", "a receipt was reported after every sent message had been accounted for"))
+    bad_sel = scn.get("bad_select") or []
+    if bad_sel and not missing and (completed or any(l.startswith("stall bad-select") or l.startswith("stall use-after-bad-select") for l in main)):
+        bl = logs.get("bad-select", [])
+        bu = logs.get("bad-select-use", [])
+        used = sorted(set(ci for b in bad_sel for ci in b["chans"]))
+        if any(l.endswith(" returned") for l in bl):
+            bad.append(("select-bad-clause-accepted", "ev/select with a malformed clause returned normally: %r" % bl))
+        elif bl == ["badselect %d raised" % k for k in range(len(bad_sel))] and bu != ["use %d 0" % ci for ci in used]:
+            bad.append(("select-bad-clause-keeps-locks", "an OS thread's ev/select / ev/rselect %r raised on its malformed last clause; another OS thread that then "
+                        "used the thread channels of the earlier clauses (ev/count on %r) got %r%s" % (
+                            [(b["fn"], b["chans"], b["bad"]) for b in bad_sel], used, bu,
+                            " and never came back (blocked in janet_chan_lock: the failed select left those channels locked)" if not completed else "")))
     late_give = scn.get("late_give") or []
     if late_give and (completed or any(l.startswith("stall give-on-closed") or l.startswith("stall use-after-give-on-closed") for l in main)):
         lg = logs.get("late-give", [])
@@ -669,4 +702,5 @@ def describe(scn):
             "gc_consumers": sum(1 for c in scn["cons"] if c.get("gc")),
             "giver_abandon": sorted(set(k for p in scn["prods"] for k in p.get("gab", {}).values())),
             "late_give": len(scn.get("late_give") or []),
+            "bad_select": sorted(set(b["bad"] for b in (scn.get("bad_select") or []))),
             "shapes": sorted(set(shape_of(pay) for p in scn["prods"] for _, pay in p["msgs"]))}
